@@ -101,10 +101,11 @@ pub fn render<V: Debug + ?Sized>(v: &V, o: FormattingOptions) -> (fmt::Result, S
 /// it finds at a non-default value (x X: hex-debug, + -: sign, 0: zero-pad, < > ^: alignment, w: width, p: precision, f: fill),
 /// so that a formatter option which does not reach the field changes the TEXT. The exact options are recorded in `seen`
 /// as well (a field's Debug impl may render any of them, e.g. the width's value).
-pub struct OptProbe { pub tag: u8, pub seen: Cell<Option<FormattingOptions>> }
-impl OptProbe { pub fn new(tag: u8) -> Self { OptProbe { tag, seen: Cell::new(None) } } }
+/// The tag is a const parameter (not data): the rendering never depends on a value read back from memory.
+pub struct OptProbe<const TAG: u8> { pub seen: Cell<Option<FormattingOptions>>, pub pad: u8 }
+impl<const TAG: u8> OptProbe<TAG> { pub fn new() -> Self { OptProbe { seen: Cell::new(None), pad: TAG } } }
 pub const RENDER: [[&str; %(ncodes)d]; 4] = %(render)s;
-impl Debug for OptProbe {
+impl<const TAG: u8> Debug for OptProbe<TAG> {
     fn fmt(&self, f: &mut Formatter<'_>) -> fmt::Result {
         let o = f.options();
         self.seen.set(Some(o));
@@ -125,7 +126,7 @@ impl Debug for OptProbe {
                 },
             },
         };
-        f.write_str(RENDER[(self.tag & 3) as usize][code])
+        f.write_str(RENDER[(TAG & 3) as usize][code])
     }
 }
 
@@ -189,7 +190,8 @@ pub fn opts(alt: bool) -> FormattingOptions { let mut o = FormattingOptions::new
 
 STUB2 = "#[kani::stub(core::slice::memchr::memchr, naive_memchr)]\n    #[kani::stub(core::slice::index::get_offset_len_noubcheck, offset_len)]"
 STUB3 = STUB2 + "\n    #[kani::stub(core::fmt::Arguments::as_str, as_str_none)]"
-UNWIND = 8
+UNWIND = 12
+PRETTY_CHUNK = 3
 
 # option kinds: name -> list of (label, statements applied to `o`); every variant is a separate concrete path
 KINDS = {
@@ -226,7 +228,7 @@ def dispatch(name, alt, kind, args=""):
 # ----------------------------------------------------------------------------------------------------
 def step_harness(name, alt, prefix, step_probe, fin, kind="default", empty_name=False, failing=False):
     """One builder step from the abstract state reached by `prefix` (concrete tiny probes), then a finisher."""
-    mk = {"opt": ("let p = OptProbe::new(1); let q = OptProbe::new(1);", "&p", "&q"),
+    mk = {"opt": ("let p = OptProbe::<1>::new(); let q = OptProbe::<1>::new();", "&p", "&q"),
           "nl": ("let p = NlProbe(nl); let q = NlProbe(nl);", "&p", "&q"),
           None: ("", None, None)}[step_probe]
     pre = "".join(" b.field(&%s);" % x for x in prefix)
@@ -270,7 +272,7 @@ def step_harness(name, alt, prefix, step_probe, fin, kind="default", empty_name=
 %(call)s
     }
 ''' % dict(name=name, sig=sig, nm="" if empty_name else "N", mk=mk[0], sink=sink, pre=pre, step_a=step_a, step_b=step_b, fin=fin,
-           lim="let lim: usize = kani::any(); kani::assume(lim <= 14);\n        " if failing else "",
+           lim="let lim: usize = kani::any(); kani::assume(lim <= 30);\n        " if failing else "",
            covers="\n            ".join(covers), extra=extra, unwind=UNWIND, stub=STUB3, call=call)
     return src, len(covers)
 
@@ -290,7 +292,7 @@ def builder_program(key, alt, specs):
         step = {"opt": ".field(&OptProbe)", "nl": ".field(&NlProbe(k)) for each multi-line kind k", None: "(no field)"}[probe]
         ob = "post_same(dm, core) for debug_tuple(f, %s) from state [%s]: %s then .%s(); alternate=%s, %s%s" % (
             '""' if kw.get("empty_name") else '"N"', STATE_TEXT[tuple(prefix)], step, fin, "on" if alt else "off",
-            KIND_TEXT[kw.get("kind", "default")], "; sink fails at every byte position <= 14" if kw.get("failing") else "")
+            KIND_TEXT[kw.get("kind", "default")], "; sink fails at every byte position <= 30" if kw.get("failing") else "")
         hs.append(Harness(hname, ob, bounded="one builder step after a concrete prefix of <= 1 field; " + BOUND_OPTS,
                           fn="derive_more::__private::{debug_tuple, DebugTuple::field/finish/finish_non_exhaustive}, Padded::write_str (src/fmt.rs)",
                           cover_min=nc))
@@ -350,25 +352,25 @@ def unraw(n):
     return n[2:] if n.startswith("r#") else n
 
 
-def rust_ty(ty, mod):
-    return {"O": "OptProbe", "NL": "NlProbe", "B": "ByteProbe", "T": "T", "RT": "&'a T"}.get(ty, ty)
+def rust_ty(ty, idx):
+    return {"O": "OptProbe<%d>" % (idx & 3), "NL": "NlProbe", "B": "ByteProbe", "T": "T", "RT": "&'a T"}.get(ty, ty)
 
 
-def field_decl(f, with_attrs, mod):
+def field_decl(f, with_attrs, idx):
     a = ""
     if with_attrs and f.attr:
         if f.attr in ("skip", "ignore"):
             a = "#[debug(%s)] " % f.attr
         else:
             a = "#[debug(%s)] " % ", ".join([f.attr[1]] + list(f.attr[2]))
-    t = rust_ty(f.ty, mod)
+    t = rust_ty(f.ty, idx)
     return "%spub %s: %s" % (a, f.name, t) if f.name else "%spub %s" % (a, t)
 
 
 def body_decl(sh, with_attrs, mod, in_enum=False):
     if sh.kind == "unit":
         return ""
-    fs = [field_decl(f, with_attrs, mod) for f in sh.fields]
+    fs = [field_decl(f, with_attrs, i) for i, f in enumerate(sh.fields)]
     if in_enum:
         fs = [x.replace("pub ", "") for x in fs]
     if sh.kind == "tuple":
@@ -455,11 +457,11 @@ class Ty:
 
 def value_expr(f, mod, idx, inner):
     if f.ty == "O":
-        return "OptProbe::new(%d)" % (idx & 3)
+        return "OptProbe::<%d>::new()" % (idx & 3)
     if f.ty == "T":
-        return "OptProbe::new(%d)" % (idx & 3)
+        return "OptProbe::<0>::new()"
     if f.ty == "RT":
-        return "&rt%d" % (idx & 3)
+        return "&rt0"
     if f.ty == "NL":
         return "NlProbe(nl)"
     if f.ty == "B":
@@ -494,36 +496,45 @@ def type_program(key, title, tys, configs, top=None, extra_items="", extra_harne
     sd = "".join(t.decl("sd") for t in tys)
     nl_used, b_used = uses(tys, "NL"), uses(tys, "B")
     blocks = []
-    n_cov = 0
+    labels = []
     for t in tops:
         for sh in t.shapes:
             lab = t.name + ("::" + sh.name if t.is_enum else "")
             blocks.append('''        {
-            let (rt0, rt1, rt2, rt3) = (OptProbe::new(0), OptProbe::new(1), OptProbe::new(2), OptProbe::new(3));
+            let rt0 = OptProbe::<0>::new();
             let (a, b) = (%s, %s);
             let ((ra, sa), (rb, sb)) = (render(&a, o), render(&b, o));
             if split { kani::cover!(ra.is_ok() && sa.len > 0, "rendered %s"); }
             else { assert!(post_same(&ra, &sa, &rb, &sb), "bytes(dm::%s) == bytes(sd::%s)"); }
         }''' % (ctor(t, sh, "dm", inner), ctor(t, sh, "sd", inner), lab, lab, lab))
-            n_cov += 1
+            labels.append(lab)
     sig = "o: FormattingOptions, split: bool" + (", nl: u8" if nl_used else "") + (", byte: u8" if b_used else "")
+    # pretty mode costs ~10 s of symbolic execution per value pair: at most PRETTY_CHUNK pairs per pretty harness
+    chunks = [blocks[i:i + PRETTY_CHUNK] for i in range(0, len(blocks), PRETTY_CHUNK)]
+    labs = [labels[i:i + PRETTY_CHUNK] for i in range(0, len(labels), PRETTY_CHUNK)]
     body = "    fn body(%s) {\n%s\n    }\n" % (sig, "\n".join(blocks))
+    if len(chunks) > 1:
+        for ci, ch in enumerate(chunks):
+            body += "    fn body_%d(%s) {\n%s\n    }\n" % (ci + 1, sig, "\n".join(ch))
     hs = []
     harn = ""
     for suffix, alt, kind in configs:
-        name = "ob_" + suffix
-        extra_args = (", nl" if nl_used else "") + (", byte" if b_used else "")
-        pre = "        let byte: u8 = kani::any();\n" if b_used else ""
-        call = dispatch(name, alt, kind, extra_args).replace(name + "_body", "body")
-        if nl_used:
-            # every kind of multi-line rendering, each on its own concrete path
-            call = "        match kani::any::<u8>() {\n" + "".join(
-                "            %s => { let nl: u8 = %d;\n    %s\n            }\n" % (str(k) if k < 3 else "_", k, call.replace("\n", "\n    "))
-                for k in range(4)) + "        }"
-        harn += "    #[kani::proof]\n    #[kani::unwind(%d)]\n    %s\n    fn %s() {\n%s%s\n    }\n" % (UNWIND, stub, name, pre, call)
-        cfg = "{:%s?} (alternate=%s, %s)" % ("#" if alt else "", "on" if alt else "off", KIND_TEXT[kind])
-        hs.append(Harness(name, "forall field values of the probe types. post_same(dm::T, sd::T) under %s; T in {%s}" % (cfg, ", ".join(t.name for t in tops)),
-                          fn="generated <dm::T as Debug>::fmt (impl/src/fmt/debug.rs) + src/fmt.rs DebugTuple", cover_min=n_cov))
+        parts = [("", "body", len(blocks), labels)] if not alt or len(chunks) == 1 else \
+            [("_%d" % (ci + 1), "body_%d" % (ci + 1), len(ch), labs[ci]) for ci, ch in enumerate(chunks)]
+        for psuf, bname, ncov, plabs in parts:
+            name = "ob_" + suffix + psuf
+            extra_args = (", nl" if nl_used else "") + (", byte" if b_used else "")
+            pre = "        let byte: u8 = kani::any();\n" if b_used else ""
+            call = dispatch(name, alt, kind, extra_args).replace(name + "_body", bname)
+            if nl_used:
+                # every kind of multi-line rendering, each on its own concrete path
+                call = "        match kani::any::<u8>() {\n" + "".join(
+                    "            %s => { let nl: u8 = %d;\n    %s\n            }\n" % (str(k) if k < 3 else "_", k, call.replace("\n", "\n    "))
+                    for k in range(4)) + "        }"
+            harn += "    #[kani::proof]\n    #[kani::unwind(%d)]\n    %s\n    fn %s() {\n%s%s\n    }\n" % (UNWIND, stub, name, pre, call)
+            cfg = "{:%s?} (alternate=%s, %s)" % ("#" if alt else "", "on" if alt else "off", KIND_TEXT[kind])
+            hs.append(Harness(name, "forall field values of the probe types. post_same(dm::T, sd::T) under %s; T in {%s}" % (cfg, ", ".join(plabs)),
+                              fn="generated <dm::T as Debug>::fmt (impl/src/fmt/debug.rs) + src/fmt.rs DebugTuple", cover_min=ncov))
     if control:
         t = tops[0]
         sh = t.shapes[-1]
@@ -532,12 +543,12 @@ def type_program(key, title, tys, configs, top=None, extra_items="", extra_harne
     %s
     fn control_false_post() {
         let o = opts(false);%s
-        let (a, b) = (%s, sd::Other(OptProbe::new(0)));
+        let (a, b) = (%s, sd::Other(OptProbe::<0>::new()));
         let ((ra, sa), (rb, sb)) = (render(&a, o), render(&b, o));
         assert!(post_same(&ra, &sa, &rb, &sb), "deliberately false: a differently named type prints the same");
     }
 ''' % (UNWIND, stub, (" let nl: u8 = 3;" if nl_used else "") + (" let byte: u8 = 65;" if b_used else ""), ctor(t, sh, "dm", inner))
-        sd += "    #[derive(Debug)]\n    pub struct Other(pub OptProbe);\n"
+        sd += "    #[derive(Debug)]\n    pub struct Other(pub OptProbe<0>);\n"
         hs.append(Harness("control_false_post", "deliberately false post-condition (a differently named type prints the same) must FAIL",
                           kind="negative_control"))
     src = "\nuse crate::common::*;\n#[allow(non_camel_case_types, dead_code)]\npub mod dm {\n    use crate::common::*;\n%s}\n" \
@@ -613,16 +624,23 @@ def type_programs(tier):
     # ---- generics
     add("g_type_param", [st("G1", "tuple", [Fd(None, "T")], generics=("<T>", "<T>", "")),
                          st("G2", "named", [Fd("a", "T"), O("b")], generics=("<T>", "<T>", ""))])
-    add("g_lt_const", [st("G3", "tuple", [Fd(None, "RT"), Fd(None, "T")], generics=("<'a, T, const N: usize>", "<'a, T, N>", "::<OptProbe, 2>"))])
+    add("g_lt_const", [st("G3", "tuple", [Fd(None, "RT")], generics=("<'a, T, const N: usize>", "<'a, T, N>", "::<OptProbe<0>, 2>")),
+                       st("G4", "named", [Fd("a", "RT"), O("b")], generics=("<'a, T: 'a, const N: usize>", "<'a, T, N>", "::<OptProbe<0>, 3>"))])
+    # a reference to a type parameter next to the parameter itself (std accepts it)
+    add("g_ref_and_owned", [st("GR", "tuple", [Fd(None, "RT"), Fd(None, "T")], generics=("<'a, T>", "<'a, T>", "")),
+                            st("GS", "named", [Fd("a", "T"), Fd("b", "RT")], generics=("<'a, T>", "<'a, T>", ""))],
+        configs=[c for c in cfg if c[0] in ("flat", "pretty")])
     add("g_enum", [Ty("GE", [Sh("A", "tuple", [Fd(None, "T")]), Sh("B", "named", [Fd("x", "T")]), Sh("C", "unit")], is_enum=True,
-                      generics=("<T>", "<T>", "::<OptProbe>"))])
+                      generics=("<T>", "<T>", "::<OptProbe<0>>"))])
     # ---- raw identifiers
     add("raw_field_names", [st("RF", "named", [O("r#type"), O("r#in")]),
                             Ty("RE", [Sh("V", "named", [O("r#struct")])], is_enum=True)])
-    add("raw_type_unit", [st("r#type", "unit")])
-    add("raw_type_tuple", [st("r#struct", "tuple", [O()])])
-    add("raw_type_named", [st("r#match", "named", [O("r#in")])])
-    add("raw_variants", [Ty("E", [Sh("r#fn", "unit"), Sh("r#if", "tuple", [O()]), Sh("r#loop", "named", [O("r#in")])], is_enum=True)])
+    raw_cfg = cfg if tier == "thorough" else [c for c in QUICK_CFG if c[0] in ("flat", "pretty")]
+    add("raw_type_unit", [st("r#type", "unit")], configs=raw_cfg)
+    add("raw_type_tuple", [st("r#struct", "tuple", [O()])], configs=raw_cfg)
+    add("raw_type_named", [st("r#match", "named", [O("r#in")])], configs=raw_cfg)
+    add("raw_variants", [Ty("E", [Sh("r#fn", "unit"), Sh("r#if", "tuple", [O()]), Sh("r#loop", "named", [O("r#in")])], is_enum=True)],
+        configs=raw_cfg)
     # ---- skipped fields: all subsets
     add("k_tuple2", skip_subsets("tuple", 2))
     add("k_named2", skip_subsets("named", 2))
@@ -654,16 +672,16 @@ use crate::common::*;
 pub mod dm {
     use crate::common::*;
     #[derive(derive_more::Debug)]
-    pub struct Rep(pub OptProbe, pub NlProbe);
+    pub struct Rep(pub OptProbe<2>, pub NlProbe);
 }
 #[allow(dead_code)]
 pub mod sd {
     use crate::common::*;
     #[derive(Debug)]
-    pub struct Rep(pub OptProbe, pub NlProbe);
+    pub struct Rep(pub OptProbe<2>, pub NlProbe);
 }
 /// the identical definition deriving std's Debug, holding the same field values
-pub fn to_std(v: &dm::Rep) -> sd::Rep { sd::Rep(OptProbe::new(v.0.tag), NlProbe(v.1 .0)) }
+pub fn to_std(v: &dm::Rep) -> sd::Rep { sd::Rep(OptProbe::new(), NlProbe(v.1 .0)) }
 
 /// Post-condition of `<dm::Rep as Debug>::fmt` run on a fresh sink under options `o`
 pub fn post_fmt(v: &dm::Rep, o: FormattingOptions, r: &(fmt::Result, Sink)) -> bool {
@@ -677,7 +695,7 @@ pub fn fmt_contract(v: &dm::Rep, o: FormattingOptions) -> (fmt::Result, Sink) { 
 #[cfg(kani)]
 mod proofs {
     use super::*;
-    /// flat, every width and precision, every multi-line kind and tag
+    /// flat, every width and precision, every multi-line kind
     #[kani::proof_for_contract(fmt_contract)]
     #[kani::unwind(%(unwind)d)]
     %(stub)s
@@ -685,15 +703,20 @@ mod proofs {
         let mut o = opts(false);
         o.width(Some(kani::any()));
         o.precision(Some(kani::any()));
-        let v = dm::Rep(OptProbe::new(match kani::any::<u8>() { 0 => 0, 1 => 1, 2 => 2, _ => 3 }), NlProbe(kani::any()));
-        fmt_contract(&v, o);
+        // every multi-line kind on its own path
+        match kani::any::<u8>() {
+            0 => { fmt_contract(&dm::Rep(OptProbe::new(), NlProbe(0)), o); }
+            1 => { fmt_contract(&dm::Rep(OptProbe::new(), NlProbe(1)), o); }
+            2 => { fmt_contract(&dm::Rep(OptProbe::new(), NlProbe(2)), o); }
+            _ => { fmt_contract(&dm::Rep(OptProbe::new(), NlProbe(3)), o); }
+        }
     }
     /// through the `format_args!` machinery (what `format!("{:?} {:#?} ..", v)` runs)
     #[kani::proof]
     #[kani::unwind(%(unwind)d)]
     %(stub)s
     fn ob_write_macro() {
-        let a = dm::Rep(OptProbe::new(2), NlProbe(0));
+        let a = dm::Rep(OptProbe::new(), NlProbe(0));
         let b = to_std(&a);
         let (mut sa, mut sb) = (Sink::new(), Sink::new());
         let w: usize = 5;
@@ -706,15 +729,19 @@ mod proofs {
 }
 ''' % dict(unwind=UNWIND, stub=STUB3)
     hs = [Harness("ob_contract", "#[kani::ensures(post_fmt)] on fmt_contract (thin wrapper of <dm::Rep as Debug>::fmt on a fresh sink), "
-                  "proof_for_contract; alternate=off, every width and precision, every tag and multi-line kind", kind="contract",
+                  "proof_for_contract; alternate=off, every width and precision, every multi-line kind", kind="contract",
                   fn="fmt_contract (thin wrapper of the generated <dm::Rep as Debug>::fmt)"),
           Harness("ob_write_macro", "post_same of fmt::write(format_args!(\"[{:?}|{:x?}|{:w$?}|{:#?}]\", v x4)) for dm::Rep / sd::Rep",
                   fn="generated <dm::Rep as Debug>::fmt through core::fmt::write", cover_min=1)]
-    return Program("rep_contract", "struct Rep(OptProbe, NlProbe) -- representative with #[kani::ensures]", src, hs)
+    return Program("rep_contract", "struct Rep(OptProbe<2>, NlProbe) -- representative with #[kani::ensures]", src, hs)
 
 
 def family(tier, seed):
-    progs = builder_programs(tier) + type_programs(tier) + [contract_program()]
+    tp = type_programs(tier)
+    # generated-code programs first (the raw-identifier ones in front), the builder steps last: the core replays only the first
+    # few counterexamples natively
+    progs = [p for p in tp if p.key.startswith("raw_")] + [p for p in tp if not p.key.startswith("raw_")] + \
+        [contract_program()] + builder_programs(tier)
     only = os.environ.get("C06_ONLY")          # development aid: restrict to programs whose key starts with one of the prefixes
     if only:
         progs = [p for p in progs if any(p.key.startswith(x) for x in only.split(","))]
@@ -742,7 +769,7 @@ def family(tier, seed):
             "('a\\nb', 'a\\n'+'b', '\\n', 'ab'), one symbolic 7-bit byte",
             "the whole-builder equivalence for k fields is the composition of the step contracts over the state (result, fields==0, fields==1, "
             "empty_name): argued, not proved; steps are verified from the states reached by a concrete prefix of <= 1 field",
-            "generic programs are verified at the instantiation T = OptProbe",
+            "generic programs are verified at the instantiation T = OptProbe<0>",
         ],
         rule="builder: one obligation per (alternate, step, abstract state, finisher, name, option kind) = %d; generated code: one program per "
              "group of type definitions, one obligation per formatter configuration, each over all values of the probe field types; "
